@@ -6,29 +6,21 @@ let rec int_of_nat = function O -> 0 | S n -> 1 + int_of_nat n
 let rec nat_of_int n = if n <= 0 then O else S (nat_of_int (n - 1))
 let b01 b = if b then "1" else "0"
 
+let tk_name = function TmR -> "TmR" | TmC -> "TmC" | TcC -> "TcC" | TmV -> "TmV" | TcV -> "TcV"
+let pf_name = function PI pc -> b01 pc | PT t -> tk_name t | PM -> "M"
+let apf_name = function A0 -> "0" | A1 -> "1" | AM -> "M"
+
 let kind_name = function
   | KArr -> "Arr" | KSArr -> "SArr"
-  | KARef pc -> "ARef" ^ b01 pc | KSub pc -> "Sub" ^ b01 pc | KCSub pc -> "CSub" ^ b01 pc
-  | KIt (c, pc) -> "It" ^ b01 c ^ b01 pc
-  | KER pc -> "ER" ^ b01 pc | KEI pc -> "EI" ^ b01 pc | KCu pc -> "Cu" ^ b01 pc | KPt pc -> "Pt" ^ b01 pc
-  | KSP (c, pc) -> "SP" ^ b01 c ^ b01 pc
+  | KARef a -> "ARef" ^ apf_name a | KSub pf -> "Sub" ^ pf_name pf | KCSub pf -> "CSub" ^ pf_name pf
+  | KIt (c, pf) -> "It" ^ b01 c ^ pf_name pf
+  | KER pf -> "ER" ^ pf_name pf | KEI pf -> "EI" ^ pf_name pf | KCu pf -> "Cu" ^ pf_name pf | KPt pf -> "Pt" ^ pf_name pf
+  | KSP (c, pf) -> "SP" ^ b01 c ^ pf_name pf
   | KElem -> "Elem"
+  | KArrS -> "ArrS" | KSubS pc -> "SubS" ^ b01 pc | KCSubS pc -> "CSubS" ^ b01 pc | KPtS pc -> "PtS" ^ b01 pc
 
 let kind_of_name s =
-  let pc c = (c = '1') in
-  let n = String.length s in
-  match s with
-  | "Arr" -> KArr | "SArr" -> KSArr | "Elem" -> KElem
-  | _ when n = 5 && String.sub s 0 4 = "ARef" -> KARef (pc s.[4])
-  | _ when n = 5 && String.sub s 0 4 = "CSub" -> KCSub (pc s.[4])
-  | _ when n = 4 && String.sub s 0 3 = "Sub" -> KSub (pc s.[3])
-  | _ when n = 4 && String.sub s 0 2 = "It" -> KIt (pc s.[2], pc s.[3])
-  | _ when n = 4 && String.sub s 0 2 = "SP" -> KSP (pc s.[2], pc s.[3])
-  | _ when n = 3 && String.sub s 0 2 = "ER" -> KER (pc s.[2])
-  | _ when n = 3 && String.sub s 0 2 = "EI" -> KEI (pc s.[2])
-  | _ when n = 3 && String.sub s 0 2 = "Cu" -> KCu (pc s.[2])
-  | _ when n = 3 && String.sub s 0 2 = "Pt" -> KPt (pc s.[2])
-  | _ -> failwith ("kind " ^ s)
+  try List.find (fun k -> kind_name k = s) all_kinds with Not_found -> failwith ("kind " ^ s)
 
 let state_name s =
   Printf.sprintf "%s.%d.%s.%s" (kind_name s.sk) (int_of_nat s.sd) (if s.sc then "c" else "m")
@@ -50,13 +42,21 @@ let op_name = function
   | AFlatted -> "Flatted" | AReindexed -> "Reindexed" | ABlocked -> "Blocked" | ARange -> "Range" | AStenciled -> "Stenciled"
   | ABroadcasted -> "Broadcasted" | AAsConst -> "AsConst" | ABase -> "Base" | ADataElements -> "DataElements"
   | AOrigin -> "Origin" | AAddrOf -> "AddrOf" | AAddressOf -> "AddressOf" | AArrow -> "Arrow" | AMove -> "Move" | ABindRef -> "BindRef" | ABindCRef -> "BindCRef"
+  | AETransMP -> "ETransMP" | AETransLR -> "ETransLR" | AETransLC -> "ETransLC" | AETransLV -> "ETransLV" | AMemberCast -> "MemberCast"
+  | AReinterpretN -> "ReinterpretN" | AReinterpret -> "Reinterpret" | AStaticCast -> "StaticCast" | AStaticCastC -> "StaticCastC"
+  | AConstCast -> "ConstCast" | AElementMoved -> "ElementMoved" | AMoved -> "Moved"
+  | AMutableBase -> "MutableBase" | ACBase -> "CBase" | AElementsAt -> "ElementsAt" | AApply -> "Apply" | AData -> "Data"
+  | AConv (f, c, p) -> "Cv" ^ (match f with FI -> "I" | FE -> "E" | FA -> "A") ^ b01 c ^ (if p then "c" else "m")
+  | AEqM -> "EqM" | AEqC -> "EqC"
+  | AToView (t, e, p) -> "To" ^ (match t with VSub -> "Sub" | VCSub -> "CSub" | VARef -> "ARef") ^ (if e then "E" else "I") ^ (if p then "c" else "m")
+  | AUPlus -> "UPlus" | ADecay -> "Decay" | AToArr -> "ToArr"
   | AAssign -> "Assign" | AFill -> "Fill" | ASwap -> "Swap" | AMSwap -> "MSwap"
 
 let op_of_name n =
   try List.find (fun o -> op_name o = n) all_ops with Not_found -> failwith ("op " ^ n)
 
 let outcome_name = function
-  | To s -> "To:" ^ state_name s | ToVal -> "To:Val" | ToOther -> "To:Other" | Mut -> "Mut" | NoDef -> "NoDef"
+  | To s -> "To:" ^ state_name s | ToVal -> "To:Val" | ToCopy s -> "To:Copy:" ^ state_name s | ToOther -> "To:Other" | Mut -> "Mut" | NoDef -> "NoDef"
   | No -> "No" | Hard -> "Hard" | NA -> "NA"
 
 let is_mutator o = List.mem o mutators
@@ -81,8 +81,9 @@ let () =
   match args with
   | _ :: "rows" :: _ ->
       let maxd = geti "--maxd" 3 in
+      let maxdnew = geti "--maxdnew" maxd in
       List.iter (fun ((s, o), out) -> Printf.printf "R %s %s %s\n" (state_name s) (op_name o) (outcome_name out))
-        (rows_of (states_upto (nat_of_int maxd)))
+        (rows_of (states_upto (nat_of_int maxd) (nat_of_int maxdnew)))
   | _ :: "states" :: _ ->
       List.iter (fun s -> Printf.printf "S %s ro=%s writable=%s root=%s\n" (state_name s) (b01 (ro s)) (b01 (writable s)) (b01 (is_root s))) table_states
   | _ :: "kinds" :: _ ->
@@ -112,7 +113,12 @@ let () =
         let rec grow s acc n =
           if n = 0 then List.rev acc
           else
-            let ok = List.filter (fun o -> match astep s o with To _ -> true | _ -> false) access in
+            let noncanon = List.exists (fun o -> o = AETransLR || o = AETransLC) acc in
+            let is_conv o = (match o with AConv (_, _, _) | AEqM | AEqC -> true | _ -> false) in
+            let is_vconv o = (match o with AToView (_, _, _) -> true | _ -> false) in
+            (* view construction only as the single step on a root (prvalue / xvalue); no conversion after a non-canonical functor *)
+            let ok = List.filter (fun o -> (match astep s o with To _ -> true | _ -> false)
+                                           && not (is_vconv o) && not (noncanon && is_conv o)) access in
             (* bias away from the language-level steps so that library steps dominate *)
             let ok' = List.filter (fun o -> not (List.mem o [AMove; ABindRef; ABindCRef]) || Random.int 4 = 0) ok in
             let ok = if ok' = [] then ok else ok' in
